@@ -61,6 +61,8 @@ def main():
                 if sel and not any(name.startswith(s) for s in sel):
                     continue
                 meta = json.load(open(os.path.join(dp, "meta.json")))
+                if meta.get("superseded"):
+                    continue   # kept for the record only: its premise went away with a later repair of /repo
                 prop = meta.get("property") or meta.get("breaks") or name[:3]
                 jobs.append((kind, name, dp, PROPS if allp else [prop]))
     with ThreadPoolExecutor(max_workers=16) as ex:
